@@ -134,6 +134,12 @@ func (c *Ctx) sym(fr *Frame, call *ast.CallExpr, ce *Callee, args []Value) (stri
 	if ce.Key != "" && ce.Key == c.jsonKey() {
 		return "json", true
 	}
+	if pf := c.P.FuncByKey("parseToJob"); pf != nil && ce.Key == pf.Key {
+		return "parse", true
+	}
+	if nk := c.queueNextKey(); nk != "" && ce.Key == nk {
+		return "nextq", true
+	}
 	switch ce.Key {
 	case kDequeue, kDequeueAck:
 		return "deq", true
@@ -399,6 +405,11 @@ func (c *Ctx) visitSym(fr *Frame, n ast.Node) string {
 		if ce.Key == kNodeServe {
 			return "go:serve"
 		}
+		for name, f := range map[string]*Func{"go:dispatcher": R.DispLoop, "go:reaper": R.Reaper, "go:listener": R.Listener} {
+			if f != nil && f.Lit == nil && ce.Key == f.Key {
+				return name
+			}
+		}
 		return "go:" + ce.String()
 	}
 	return ""
@@ -422,6 +433,15 @@ func (c *Ctx) classifier(atomic map[string]bool, drop map[string]bool) func(fr *
 			ev.Results = tok("enqok")
 		case "json":
 			ev.Results = []Value{{Kind: VTok, S: "jsonval"}, {Kind: VTok, S: "jsonerr"}}
+		case "nextq":
+			ev.Results = []Value{{Kind: VTok, S: "nextq"}, {Kind: VTok, S: "nexterr"}}
+		case "parse":
+			// the decoded job is "this delivery" only if what was decoded is this delivery's value
+			res := "parsed:other"
+			if len(args) == 1 && args[0].Kind == VTok && args[0].S == "deqval" {
+				res = "parsed"
+			}
+			ev.Results = []Value{{Kind: VTok, S: res}, {Kind: VTok, S: "perr"}}
 		case "isclosed":
 			if at {
 				ev.Results = tok("closed")
@@ -627,7 +647,7 @@ func (c *Ctx) vocab(keep []string, atomic map[string]bool) *vocab {
 	}
 	// a rule that records conditions on result tokens ("ackid=", "popped=nil", ...) needs the calls producing them
 	// to be seen even when they sit in a helper the rule has no other interest in
-	producers := map[string]string{"ackid": "deq", "deqval": "deq", "deqok": "deq", "enqok": "enq", "closed": "isclosed", "removed": "remove", "popped": "pop", "jsonerr": "json", "jsonval": "json"}
+	producers := map[string]string{"ackid": "deq", "deqval": "deq", "deqok": "deq", "enqok": "enq", "closed": "isclosed", "removed": "remove", "popped": "pop", "jsonerr": "json", "jsonval": "json", "perr": "parse", "parsed": "parse"}
 	for _, k := range keep {
 		if i := strings.Index(k, "="); i > 0 {
 			if p := producers[k[:i]]; p != "" && !v.keep[p] {
@@ -686,4 +706,28 @@ func (v *vocab) seq(rule string, cut bool) *seqRule {
 			}
 			return ""
 		}}
+}
+
+
+// queueNextKey: the queue manager's selector method (returns the queue to dequeue from and an error).
+func (c *Ctx) queueNextKey() string {
+	if v, ok := c.cache["queueNextKey"]; ok {
+		return v.(string)
+	}
+	if c.cache == nil {
+		c.cache = map[string]any{}
+	}
+	key := ""
+	if c.R != nil && c.R.Step != nil {
+		for _, f := range c.P.pkgFuncs(modPath) {
+			if f.Obj == nil || f.Decl.Recv == nil || f.Obj.Name() != "next" {
+				continue
+			}
+			if qualTypeName(f.Obj.Type().(*types.Signature).Recv().Type()) == modPath+".queueManager" {
+				key = f.Key
+			}
+		}
+	}
+	c.cache["queueNextKey"] = key
+	return key
 }
